@@ -10,7 +10,8 @@ Core Lean only.
   zero-pivot branch (l.154-187: diagonal, else first eligible candidate, else first free row of
   `swap`; value replaced by `fill_tol`; `info = jcol+1`), the threshold / reuse / diagonal
   preference policy (l.188-227), the MILU reset of the pivot (l.229-241).  `resetInc` abstracts
-  `SGN(v)*drop_sum` (real) — the complex routine adds `drop_sum` itself (ilu_zpivotL.c:238-240).
+  `SGN(v)*drop_sum` (real) resp. `z_sgn(v)*drop_sum` (complex, ilu_zpivotL.c:236-241 since the `fix:`
+  commit that made the SMILU_2/3 reset add `sgn(pivot)*drop_sum`): `realPivot`, `complexPivot`.
 * `replaceCount` — `iinfo` bookkeeping of `[sdcz]gsitrf` (dgsitrf.c:430-437, 551-559): one per column
   for which the policy returned nonzero.
 * `foldPerm`, `invPerm`, `restoreRows` — `[sdcz]gsisx` glue (dgsisx.c:546-584 and 637-655): MC64's
@@ -158,6 +159,17 @@ def sgnR (x : Rat) : Rat := if x ≥ 0 then 1 else -1
 reset adds `SGN(pivot)*drop_sum` -/
 def realPivot (inp : PivIn Rat Rat) : PivOut Rat :=
   iluPivotChoice inp inp.dropSum id (fun v => sgnR v * inp.dropSum)
+
+/-- `z_sgn` (dcomplex.c:120-132): `z / |z|`, and `1` when `|z| = 0`; `t` stands for the modulus `z_abs`
+(irrational in general — the theorems hold for every `t` that is non-negative and vanishes only at 0) -/
+def sgnC (t : Cx Rat → Rat) (z : Cx Rat) : Cx Rat :=
+  if t z == 0 then ⟨1, 0⟩ else ⟨z.re / t z, z.im / t z⟩
+
+/-- the complex routines `ilu_[cz]pivotL` in exact arithmetic: `drop_sum` is a complex number whose real
+part is what the magnitude tests add (`drop_sum.r`), the replacement value is `fill_tol + 0i`, the
+MILU_2/3 reset adds `z_sgn(pivot) * drop_sum` -/
+def complexPivot (t : Cx Rat → Rat) (inp : PivIn (Cx Rat) Rat) : PivOut (Cx Rat) :=
+  iluPivotChoice inp inp.dropSum.re (fun r => ⟨r, 0⟩) (fun v => sgnC t v * inp.dropSum)
 
 /-! ### the dropping oracle -/
 
